@@ -230,7 +230,6 @@ def catalogue(rng, tier):
         K3 = rand_pd(rng, 2, lo=1.0, hi=1.4)
         add("Kronecker[2x2x3]", lambda a=K1, b=K3, c=K2: O.KroneckerProductLinearOperator(
             O.DenseLinearOperator(a.clone()), O.DenseLinearOperator(b.clone()), O.DenseLinearOperator(c.clone())), "kron")
-        add("Chol(upper)[n=5]", lambda L=L: O.CholLinearOperator(O.TriangularLinearOperator(L.mT.contiguous().clone(), upper=True), upper=True), "chol")
     return specs
 
 
@@ -377,6 +376,8 @@ def tol_for(label, logs_step, sticky):
         loose = max(loose, 5e-4)
     if label in ("solve", "inv_quad") and "cg" in logs_step:
         loose = max(loose, 2e-3)
+    if label in ("psd", "psdinv"):
+        loose = max(loose, 1e-5)    # sub-operator Lanczos runs are not always visible in this object's log
     return max(loose, 1e-8)
 
 
@@ -467,7 +468,7 @@ def compare_fresh(obs, fobs, logs_step, flogs, sticky):
 def audit_cache(op, A, sticky, pd):
     """cache_inv on the implementation: every `_memoize_cache` entry is a valid answer for its key."""
     fails, unknown = [], []
-    tol = max(5e-3 if "pivchol" in sticky else 0.0, 5e-4 if "lanczos" in sticky else 0.0, 1e-8)
+    tol = max(5e-3 if "pivchol" in sticky else 0.0, 5e-4 if "lanczos" in sticky else 0.0, 1e-5)
     for k, v in list(getattr(op, "_memoize_cache", {}).items()):
         ck = canon_key(k)
         name = key_name(ck)
@@ -572,7 +573,7 @@ def model_profile(op):
     t = type(op)
     if t is O.DenseLinearOperator:
         return "base"
-    if t in (O.SumLinearOperator, O.AddedDiagLinearOperator):
+    if t is O.SumLinearOperator:
         return "sum"
     return None
 
@@ -613,7 +614,7 @@ def random_settings(rng, n):
     st["frd"] = rng.random() < 0.75
     st["flp"] = rng.random() < 0.75
     st["fs"] = rng.random() < 0.75
-    st["mrds"] = rng.choice([100, 100, n + 1])
+    st["mrds"] = rng.choice([100, 100, 64])
     return st
 
 
@@ -890,7 +891,8 @@ class Runner:
                         paired = (Lr @ Pm - eye).abs().max().item() < 1e-6 and (Lr @ Lr.mT - A).abs().max().item() < 1e-6
                     from linear_operator.operators import TriangularLinearOperator as _Tri
                     tri = isinstance(captured["R"].root, _Tri)
-                    lineage = f"{d[0]}(roots={'paired' if paired else 'unpaired'}{'-tri' if tri else ''})"
+                    fake = tri and Lr.triu(1).abs().max().item() != 0.0 and Lr.tril(-1).abs().max().item() != 0.0
+                    lineage = f"{d[0]}(roots={'paired' if paired else 'unpaired'}{'-faketri' if fake else ('-tri' if tri else '')})"
                     chk.count("transplant:" + lineage)
                 cell = f"C12/{fr['cls']}/{fr['lineage']}/d={lineage}"
                 chk.count("d:" + d[0])
